@@ -46,8 +46,10 @@ def report(run, key, what, replay, no_input=False):
         if key not in hits:
             hits.append(key)
             print('KNOWN-FINDING (proposed): property=%s %s' % (run.pid, pk[(run.pid, key)].get('what', what)))
-        return
+        return False
+    n0 = len(run.violations)
     run.violation(key, what, replay, no_input)
+    return len(run.violations) > n0          # False when known_findings.json lists it
 
 
 # ------------------------------------------------------------------ oracle cases --
@@ -444,7 +446,7 @@ def wrapper_tie(EoN, rng, n):
         lines.append('EBD %s %s %s %s %s %s %s %d' % (C.qtok(N), ql(ps), ql(pp), C.qtok(p), C.qtok(phiS0), C.qtok(phiR0), C.qtok(R0), nst))
         r = O.call(EoN.EBCM_discrete, float(N), L.poly(ps), L.poly(pp), float(p), float(phiS0), phiR0=float(phiR0), R0=float(R0), tmin=0, tmax=nst, return_full_data=True)
         want.append(('EBCM_discrete', dict(N=str(N), psihat=[str(x) for x in ps], psihatPrime=[str(x) for x in pp], p=str(p), phiS0=str(phiS0), phiR0=str(phiR0), R0=str(R0), tmax=nst), r))
-    outs = C.run_model(lines, L.COMP, timeout=150, shards=8)
+    outs = C.run_model(lines, 'attack', timeout=150, shards=8)
     mism = []; ok = 0
     for line, (name, args, (st, r)), o in zip(lines, want, outs):
         if not o.startswith('OK'):
@@ -503,14 +505,19 @@ def run(run, tier):
             broken.append(('model-build', 'generated model / Model/Attack.v / extracted driver does not build: ' + log[-300:].replace('\n', ' ')))
         else:
             tie = L.point_check(EoN, rng, 1500 if thorough else 220, table)
-            wt = wrapper_tie(EoN, rng, 400 if thorough else 80)
-            n_eval += tie['n'] + wt['n']; n_distinct += tie['distinct'] + wt['distinct']
+            n_eval += tie['n']; n_distinct += tie['distinct']
             samples += tie['samples']
             dist['rhs_points_agreeing_per_function'] = tie['per_fn']
-            dist['wrapper_cases'] = {'n': wt['n'], 'agree': wt['ok']}
             if tie['mism']:
                 m = tie['mism'][0]
                 broken.append(('tie', 'translation is not faithful at a point: %s args=%s python=%s model=%s (%d of %d points)' % (m[0], m[1], m[2], m[3], len(tie['mism']), tie['n'])))
+        ok, log = C.build_driver('attack')
+        if not ok:
+            broken.append(('attack-model-build', 'Model/Attack.v (hand-written wrappers around the generated loops) / its driver does not build: ' + log[-300:].replace('\n', ' ')))
+        else:
+            wt = wrapper_tie(EoN, rng, 400 if thorough else 80)
+            n_eval += wt['n']; n_distinct += wt['distinct']
+            dist['wrapper_cases'] = {'n': wt['n'], 'agree': wt['ok']}
             if wt['mism']:
                 m = wt['mism'][0]
                 broken.append(('wrapper-tie', 'Model/Attack.v disagrees with %s on %s: model=%s python=%s (%d of %d cases)' % (m[0], m[1], m[2], m[3], len(wt['mism']), wt['n'])))
@@ -525,9 +532,8 @@ def run(run, tier):
             res = 'CRASH %s: %s' % (type(e).__name__, str(e)[:100])
         stats['rhs_spec'] = stats.get('rhs_spec', 0) + 1
         if res:
-            found += 1
             fn = p['args'].get('fn', p['theorem'])
-            report(run, 'C08/%s/%s' % (fn, p['theorem']), 'the statement of theorem %s fails on the Python right-hand side: %s' % (p['theorem'], res),
+            found += report(run, 'C08/%s/%s' % (fn, p['theorem']), 'the statement of theorem %s fails on the Python right-hand side: %s' % (p['theorem'], res),
                    {'kind': 'rhs_spec', 'params': p, 'detail': res, 'also_broken': [b[0] for b in broken]})
     cases = oracle_cases(rng, tier)
     n_states = 0
@@ -545,9 +551,8 @@ def run(run, tier):
             continue
         if res.startswith('SKIP'):
             skipped += 1; continue
-        found += 1
         key = 'C08/%s%s' % (stem, '/crash' if res.startswith('CRASH') else '')
-        report(run, key, '%s: %s' % (stem, res), {'kind': kind, 'params': p, 'detail': res, 'also_broken': [b[0] for b in broken]})
+        found += report(run, key, '%s: %s' % (stem, res), {'kind': kind, 'params': p, 'detail': res, 'also_broken': [b[0] for b in broken]})
     # 5. proof / tie breaks without a concrete input of the property
     if broken and not found:
         for what, detail in broken:
